@@ -31,33 +31,33 @@ theorem lineToks_value_ne (n : Nat) (f : FieldD) (h : SimpleValue f) (s : Nat) :
   rw [lineToks_value n f.name f.number s h.2.2.2.2.2.1]
   simp
 
-theorem count_values : ∀ (es : List Item), SimpleValues es → ∀ (n : Nat) (first : Bool) (lt L : Nat) (g : Bool),
-    es.length ≤ (toksOf (elemsCmds n es first 0 lt) g L).length ∧ needAll es = 0
-  | [], _, _, _, _, _, _ => by simp [needAll]
-  | .field f :: r, h, n, first, lt, L, g => by
+theorem count_values : ∀ (es : List Item), SimpleValues es → ∀ (n : Nat) (first : Bool) (le0 lt L : Nat) (g : Bool),
+    es.length ≤ (toksOf (elemsCmds n es first le0 lt) g L).length ∧ needAll es = 0
+  | [], _, _, _, _, _, _, _ => by simp [needAll]
+  | .field f :: r, h, n, first, le0, lt, L, g => by
     simp only [SimpleValues] at h
-    rw [toksOf_elems_cons n (.field f) r first lt g L (Or.inr (Or.inl h.1))]
-    have ih := count_values r h.2 n false (Item.field f).typeOrder
-      (rdItem (.field f) (startLine (g || gapBefore first lt (.field f)) L)).2 (Item.field f).gapEnder
-    have h1 := lineToks_value_ne n f h.1 (startLine (g || gapBefore first lt (.field f)) L)
+    rw [toksOf_elems_cons n (.field f) r first le0 lt g L (Or.inr (Or.inl h.1))]
+    have ih := count_values r h.2 n false (Item.field f).loc.endLine (Item.field f).typeOrder
+      (rdItem (.field f) (startLine (g || gapBefore first le0 lt (.field f)) L)).2 (Item.field f).gapEnder
+    have h1 := lineToks_value_ne n f h.1 (startLine (g || gapBefore first le0 lt (.field f)) L)
     simp only [itemToks, leafLine, h.1.1, List.length_append, List.length_cons, needAll, need1] at ih h1 ⊢
     omega
-  | .rpc _ _ _ _ _ _ :: _, h, _, _, _, _, _ => by simp [SimpleValues] at h
-  | .block _ _ _ _ _ _ _ :: _, h, _, _, _, _, _ => by simp [SimpleValues] at h
+  | .rpc _ _ _ _ _ _ :: _, h, _, _, _, _, _, _ => by simp [SimpleValues] at h
+  | .block _ _ _ _ _ _ _ :: _, h, _, _, _, _, _, _ => by simp [SimpleValues] at h
 
-theorem count_members : ∀ (es : List Item), SimpleMembers es → ∀ (n : Nat) (first : Bool) (lt L : Nat) (g : Bool),
-    es.length ≤ (toksOf (elemsCmds n es first 0 lt) g L).length ∧ needAll es = 0
-  | [], _, _, _, _, _, _ => by simp [needAll]
-  | .field f :: r, h, n, first, lt, L, g => by
+theorem count_members : ∀ (es : List Item), SimpleMembers es → ∀ (n : Nat) (first : Bool) (le0 lt L : Nat) (g : Bool),
+    es.length ≤ (toksOf (elemsCmds n es first le0 lt) g L).length ∧ needAll es = 0
+  | [], _, _, _, _, _, _, _ => by simp [needAll]
+  | .field f :: r, h, n, first, le0, lt, L, g => by
     simp only [SimpleMembers] at h
-    rw [toksOf_elems_cons n (.field f) r first lt g L (Or.inl h.1.1)]
-    have ih := count_members r h.2 n false (Item.field f).typeOrder
-      (rdItem (.field f) (startLine (g || gapBefore first lt (.field f)) L)).2 (Item.field f).gapEnder
-    have h1 := lineToks_field_ne n f h.1.1 (startLine (g || gapBefore first lt (.field f)) L)
+    rw [toksOf_elems_cons n (.field f) r first le0 lt g L (Or.inl h.1.1)]
+    have ih := count_members r h.2 n false (Item.field f).loc.endLine (Item.field f).typeOrder
+      (rdItem (.field f) (startLine (g || gapBefore first le0 lt (.field f)) L)).2 (Item.field f).gapEnder
+    have h1 := lineToks_field_ne n f h.1.1 (startLine (g || gapBefore first le0 lt (.field f)) L)
     simp only [itemToks, leafLine, h.1.1.1, List.length_append, List.length_cons, needAll, need1] at ih h1 ⊢
     omega
-  | .rpc _ _ _ _ _ _ :: _, h, _, _, _, _, _ => by simp [SimpleMembers] at h
-  | .block _ _ _ _ _ _ _ :: _, h, _, _, _, _, _ => by simp [SimpleMembers] at h
+  | .rpc _ _ _ _ _ _ :: _, h, _, _, _, _, _, _ => by simp [SimpleMembers] at h
+  | .block _ _ _ _ _ _ _ :: _, h, _, _, _, _, _, _ => by simp [SimpleMembers] at h
 
 mutual
 theorem count_item : ∀ (e : Item), SimpleItem e → ∀ (n s : Nat), 1 + need1 e ≤ (itemToks n e s).length
@@ -89,41 +89,41 @@ theorem count_item : ∀ (e : Item), SimpleItem e → ∀ (n s : Nat), 1 + need1
     · rw [lineToks_open n kw name s hkwI hname, lineToks_close]
       simp only [List.length_append, List.length_cons, List.length_nil]
       rcases hcase with ⟨_, _, hk⟩ | ⟨_, _, hk⟩ | ⟨_, _, _, hk⟩
-      · have := count_kids kids hk (n + 1) true 0 (s + 1) false
+      · have := count_kids kids hk (n + 1) true 0 0 (s + 1) false
         omega
-      · have := count_values kids hk (n + 1) true 0 (s + 1) false
+      · have := count_values kids hk (n + 1) true 0 0 (s + 1) false
         omega
-      · have := count_members kids hk (n + 1) true 0 (s + 1) false
+      · have := count_members kids hk (n + 1) true 0 0 (s + 1) false
         omega
-theorem count_kids : ∀ (es : List Item), SimpleKids es → ∀ (n : Nat) (first : Bool) (lt L : Nat) (g : Bool),
-    es.length + needAll es ≤ (toksOf (elemsCmds n es first 0 lt) g L).length
-  | [], _, _, _, _, _, _ => by simp [needAll]
-  | e :: r, h, n, first, lt, L, g => by
+theorem count_kids : ∀ (es : List Item), SimpleKids es → ∀ (n : Nat) (first : Bool) (le0 lt L : Nat) (g : Bool),
+    es.length + needAll es ≤ (toksOf (elemsCmds n es first le0 lt) g L).length
+  | [], _, _, _, _, _, _, _ => by simp [needAll]
+  | e :: r, h, n, first, le0, lt, L, g => by
     simp only [SimpleKids] at h
-    rw [toksOf_elems_cons n e r first lt g L (SimpleItem.plain e h.1)]
-    have h1 := count_item e h.1 n (startLine (g || gapBefore first lt e) L)
-    have h2 := count_kids r h.2 n false e.typeOrder (rdItem e (startLine (g || gapBefore first lt e) L)).2 e.gapEnder
+    rw [toksOf_elems_cons n e r first le0 lt g L (SimpleItem.plain e h.1)]
+    have h1 := count_item e h.1 n (startLine (g || gapBefore first le0 lt e) L)
+    have h2 := count_kids r h.2 n false e.loc.endLine e.typeOrder (rdItem e (startLine (g || gapBefore first le0 lt e) L)).2 e.gapEnder
     simp only [List.length_append, List.length_cons, needAll]
     omega
 end
 
 
-theorem count_rpcs : ∀ (es : List Item), SimpleRpcs es → ∀ (n : Nat) (first : Bool) (lt L : Nat) (g : Bool),
-    es.length ≤ (toksOf (elemsCmds n es first 0 lt) g L).length ∧ needAll es = 0
-  | [], _, _, _, _, _, _ => by simp [needAll]
-  | .rpc l i name inT outT opts :: r, h, n, first, lt, L, g => by
+theorem count_rpcs : ∀ (es : List Item), SimpleRpcs es → ∀ (n : Nat) (first : Bool) (le0 lt L : Nat) (g : Bool),
+    es.length ≤ (toksOf (elemsCmds n es first le0 lt) g L).length ∧ needAll es = 0
+  | [], _, _, _, _, _, _, _ => by simp [needAll]
+  | .rpc l i name inT outT opts :: r, h, n, first, le0, lt, L, g => by
     obtain ⟨⟨hl, ho, hname, ⟨sI, aI, fI, rI, hfI, hrI, hin, _⟩, ⟨sO, aO, fO, rO, hfO, hrO, hout, _⟩⟩, hr⟩ := h
     subst ho hin hout
-    rw [toksOf_elems_cons n (Item.rpc l i name (rpcTyStr sI aI fI rI) (rpcTyStr sO aO fO rO) []) r first lt g L ⟨hl, rfl⟩]
-    have ih := count_rpcs r hr n false (Item.rpc l i name (rpcTyStr sI aI fI rI) (rpcTyStr sO aO fO rO) []).typeOrder
+    rw [toksOf_elems_cons n (Item.rpc l i name (rpcTyStr sI aI fI rI) (rpcTyStr sO aO fO rO) []) r first le0 lt g L ⟨hl, rfl⟩]
+    have ih := count_rpcs r hr n false (Item.rpc l i name (rpcTyStr sI aI fI rI) (rpcTyStr sO aO fO rO) []).loc.endLine (Item.rpc l i name (rpcTyStr sI aI fI rI) (rpcTyStr sO aO fO rO) []).typeOrder
       (rdItem (Item.rpc l i name (rpcTyStr sI aI fI rI) (rpcTyStr sO aO fO rO) [])
-        (startLine (g || gapBefore first lt (Item.rpc l i name (rpcTyStr sI aI fI rI) (rpcTyStr sO aO fO rO) [])) L)).2
+        (startLine (g || gapBefore first le0 lt (Item.rpc l i name (rpcTyStr sI aI fI rI) (rpcTyStr sO aO fO rO) [])) L)).2
       (Item.rpc l i name (rpcTyStr sI aI fI rI) (rpcTyStr sO aO fO rO) []).gapEnder
     simp only [itemToks, lineToks_rpc n name sI aI fI rI sO aO fO rO _ hname hfI hrI hfO hrO, rpcToks,
       List.length_append, List.length_cons, needAll, need1] at ih ⊢
     omega
-  | .field _ :: _, h, _, _, _, _, _ => h.1.elim
-  | .block _ _ _ _ _ _ _ :: _, h, _, _, _, _, _ => h.1.elim
+  | .field _ :: _, h, _, _, _, _, _, _ => h.1.elim
+  | .block _ _ _ _ _ _ _ :: _, h, _, _, _, _, _, _ => h.1.elim
 
 theorem count_service : ∀ (e : Item), SimpleService e → ∀ (n s : Nat), 1 + need1 e ≤ (itemToks n e s).length
   | .block kw t l i name opts kids, h, n, s => by
@@ -138,22 +138,22 @@ theorem count_service : ∀ (e : Item), SimpleService e → ∀ (n s : Nat), 1 +
       simp [needAll]
     · rw [lineToks_open n "service" name s isIdent_service hname, lineToks_close]
       simp only [List.length_append, List.length_cons, List.length_nil]
-      have := count_rpcs kids hk (n + 1) true 0 (s + 1) false
+      have := count_rpcs kids hk (n + 1) true 0 0 (s + 1) false
       omega
   | .field _, h, _, _ => h.elim
   | .rpc _ _ _ _ _ _, h, _, _ => h.elim
 
-theorem count_tops : ∀ (es : List Item), SimpleTops es → ∀ (n : Nat) (first : Bool) (lt L : Nat) (g : Bool),
-    es.length + needAll es ≤ (toksOf (elemsCmds n es first 0 lt) g L).length
-  | [], _, _, _, _, _, _ => by simp [needAll]
-  | e :: r, h, n, first, lt, L, g => by
+theorem count_tops : ∀ (es : List Item), SimpleTops es → ∀ (n : Nat) (first : Bool) (le0 lt L : Nat) (g : Bool),
+    es.length + needAll es ≤ (toksOf (elemsCmds n es first le0 lt) g L).length
+  | [], _, _, _, _, _, _, _ => by simp [needAll]
+  | e :: r, h, n, first, le0, lt, L, g => by
     simp only [SimpleTops] at h
-    rw [toksOf_elems_cons n e r first lt g L (SimpleTop.plain e h.1)]
-    have h1 : 1 + need1 e ≤ (itemToks n e (startLine (g || gapBefore first lt e) L)).length := by
+    rw [toksOf_elems_cons n e r first le0 lt g L (SimpleTop.plain e h.1)]
+    have h1 : 1 + need1 e ≤ (itemToks n e (startLine (g || gapBefore first le0 lt e) L)).length := by
       rcases h.1 with hs | hs
       · exact count_item e hs.1 n _
       · exact count_service e hs n _
-    have h2 := count_tops r h.2 n false e.typeOrder (rdItem e (startLine (g || gapBefore first lt e) L)).2 e.gapEnder
+    have h2 := count_tops r h.2 n false e.loc.endLine e.typeOrder (rdItem e (startLine (g || gapBefore first le0 lt e) L)).2 e.gapEnder
     simp only [List.length_append, List.length_cons, needAll]
     omega
 
@@ -303,7 +303,7 @@ theorem topLevel_import (F : Nat) (d : String × String) (l : Nat) (r : List PTo
 /-- a file of messages, enums and their fields: package, imports, no options, no comments -/
 structure SimpleFile (gen : String) (t : FileD) : Prop where
   gen : NoNL gen.toList
-  loc : t.loc.isNone
+  loc : t.loc.noComments
   pkg : ∃ first rest, IsIdent first ∧ (∀ r ∈ rest, IsIdent r) ∧ t.pkg = tyStr false first rest
   imports : ∀ i ∈ t.imports, PlainBody i.1.toList ∧ (i.2 = "" ∨ i.2 = "public " ∨ i.2 = "weak ")
   distinct : t.imports.Pairwise (fun a b => strBytes a.1 ≠ strBytes b.1)
@@ -316,7 +316,7 @@ def itemsStart (t : FileD) : Nat := if t.imports.isEmpty then 5 else 6 + t.impor
 
 /-- the file as a reader of the printed text finds it -/
 def rdFile (t : FileD) : FileD :=
-  ⟨Loc.none, t.pkg, sortImports t.imports, [], [], (rdKids t.items true 0 (itemsStart t) true).1⟩
+  ⟨Loc.none, t.pkg, sortImports t.imports, [], [], (rdKids t.items true 0 0 (itemsStart t) true).1⟩
 
 /-! ### imports -/
 
@@ -337,27 +337,27 @@ theorem top_imports : ∀ (I : List (String × String)) (L F : Nat) (a : Acc) (r
 
 
 mutual
-theorem plain_unloc : ∀ (e : Item), Plain e → e.unloc
+theorem plain_quiet : ∀ (e : Item), Plain e → e.quiet
   | .field f, h => by
     simp only [Plain] at h
-    simp only [Item.unloc, FieldD.unloc]
+    simp only [Item.quiet, FieldD.quiet]
     rcases h with h | h | h
     · exact ⟨h.2.1, by rw [h.2.2.1]; simp⟩
     · exact ⟨h.2.1, by rw [h.2.2.1]; simp⟩
     · exact ⟨h.2.1, by rw [h.2.2.1]; simp⟩
   | .rpc _ _ _ _ _ _, h => by
     simp only [Plain] at h
-    simp only [Item.unloc]
+    simp only [Item.quiet]
     exact ⟨h.1, by rw [h.2]; simp⟩
   | .block _ _ l _ _ os ks, h => by
     simp only [Plain] at h
-    simp only [Item.unloc]
-    exact ⟨h.1, by rw [h.2.1]; simp, plainList_unloc ks h.2.2⟩
-theorem plainList_unloc : ∀ (es : List Item), PlainList es → unlocList es
+    simp only [Item.quiet]
+    exact ⟨h.1, by rw [h.2.1]; simp, plainList_quiet ks h.2.2⟩
+theorem plainList_quiet : ∀ (es : List Item), PlainList es → quietList es
   | [], _ => trivial
   | e :: r, h => by
     simp only [PlainList] at h
-    exact ⟨plain_unloc e h.1, plainList_unloc r h.2⟩
+    exact ⟨plain_quiet e h.1, plainList_quiet r h.2⟩
 end
 
 /-! ### the reading satisfies `relaidFile` -/
@@ -389,11 +389,11 @@ theorem relaid_rdFile (gen : String) (t : FileD) (h : SimpleFile gen t) : relaid
   · rw [h.opts]; exact optsOk_nil
   · rw [h.exts]; rfl
   · rw [h.exts]; simp [rdFile]
-  · exact relaid_rdKids t.items true 0 (itemsStart t) true 0 0 false (SimpleTops.plain _ h.items) (itemsStart_pos t)
+  · exact relaid_rdKids t.items true 0 0 (itemsStart t) true 0 0 false (SimpleTops.plain _ h.items) (itemsStart_pos t)
       (by intro hf; cases hf)
 
-theorem simple_unloc (gen : String) (t : FileD) (h : SimpleFile gen t) : t.unloc := by
+theorem simple_quiet (gen : String) (t : FileD) (h : SimpleFile gen t) : t.quiet := by
   refine ⟨h.loc, by rw [h.opts]; simp, by rw [h.exts]; simp, ?_⟩
-  exact plainList_unloc _ (SimpleTops.plain _ h.items)
+  exact plainList_quiet _ (SimpleTops.plain _ h.items)
 
 end J5V.Print.Reparse
